@@ -115,6 +115,11 @@ pub struct DicParams {
     pub boundaries: bool,
     /// keep ',' and '.' out of normalised forms that differ from the key (input class of known finding F12)
     pub avoid_f12: bool,
+    /// with probability 1/16 one system entry gets up to this many homographs (same key, other cost /
+    /// reading), the count drawn around 2^k; 127 ids per key is the format's limit. 0 = never
+    pub homographs: usize,
+    /// with probability 1/16 the matrix is 181..260 wide (more than 32,767 cells), costs declared in the far cells too
+    pub big_matrix: bool,
 }
 
 impl DicParams {
@@ -137,6 +142,8 @@ impl DicParams {
             anchor_pos: true,
             avoid_f12: false,
             boundaries: false,
+            homographs: 127,
+            big_matrix: false,
         }
     }
 }
@@ -399,20 +406,57 @@ fn build_entries(
     out
 }
 
+/// a matrix with more than 32,767 cells: costs are declared for far cells as well as near ones
+pub fn big_matrix() -> BoxedStrategy<Matrix> {
+    (select(vec![181u16, 182, 183, 200, 255, 256, 257, 260]), any::<bool>())
+        .prop_flat_map(|(n, square)| {
+            let nr = if square { n } else { n - 1 };
+            (Just(n), Just(nr), vec((prop_oneof![0..n, (n - 3)..n], prop_oneof![0..nr, (nr - 3)..nr], costs()), 0..30))
+        })
+        .prop_map(|(nl, nr, lines)| Matrix { nl, nr, lines })
+        .boxed()
+}
+
 pub fn dic_model(p: DicParams) -> BoxedStrategy<DicModel> {
     let p2 = p.clone();
     let user = (vec(base_spec(&p), 1..=p.max_user_entries.max(1)), vec(compound_spec(), 0..=2));
+    let mx = if p.big_matrix { prop_oneof![15 => matrix(p.max_dim, p.square_only), 1 => big_matrix()].boxed() } else { matrix(p.max_dim, p.square_only) };
+    let homo = if p.homographs > 0 { prop::option::weighted(1.0 / 16.0, (any::<u16>(), boundary_len(p.homographs), any::<bool>())).boxed() } else { Just(None).boxed() };
     (
-        matrix(p.max_dim, p.square_only),
+        mx,
         vec(base_spec(&p), (if p.anchor_pos { 3 } else { 1 })..=p.max_base.max(3)),
         vec(compound_spec(), 0..=p.max_compound),
         vec(user, p.min_users.min(p.max_users)..=p.max_users),
+        homo,
     )
-        .prop_map(move |(matrix, bases, comps, users)| {
-            let system = build_entries(&p2, matrix.nl, matrix.nr, bases, comps, SYS_POS, false, None);
+        .prop_map(move |(matrix, bases, comps, users, homo)| {
+            let mut system = build_entries(&p2, matrix.nl, matrix.nr, bases, comps, SYS_POS, false, None);
             let mut us = Vec::new();
             for (ub, uc) in users {
                 us.push(build_entries(&p2, matrix.nl, matrix.nr, ub, uc, USER_POS, true, Some(&system)));
+            }
+            if let Some((i, n, vary)) = homo {
+                // appended after everything else: line numbers used by references stay valid
+                let lim = matrix.nl.min(matrix.nr).max(1) as usize;
+                let mut src = system[ix(i, system.len())].clone();
+                if src.left < 0 {
+                    src.left = 0;
+                }
+                src.split_a.clear();
+                src.split_b.clear();
+                src.word_structure.clear();
+                src.dic_form = None;
+                src.mode = 'A';
+                for k in 0..n {
+                    let mut e = src.clone();
+                    e.cost = e.cost.saturating_add((k % 50) as i16).max(i16::MIN + 1);
+                    if vary {
+                        e.left = (k % lim) as i16;
+                        e.right = ((k / lim) % lim) as i16;
+                        e.reading = format!("{}{}", src.reading, k);
+                    }
+                    system.push(e);
+                }
             }
             DicModel { matrix, system, users: us }
         })
@@ -756,4 +800,27 @@ pub fn pieces_long(max: usize) -> BoxedStrategy<Vec<Piece>> {
 
 pub fn pieces(max: usize) -> BoxedStrategy<Vec<Piece>> {
     vec(piece(), 0..=max).boxed()
+}
+
+/// Sizes biased towards the places where fixed-width counters, fixed-size blocks and documented
+/// limits change behaviour (2^k - 1, 2^k, 2^k + 1 for k = 4..16 and the limits named in the code).
+pub fn boundary_points(max: usize) -> Vec<usize> {
+    let mut v: Vec<usize> = Vec::new();
+    for k in 4..=16u32 {
+        let p = 1usize << k;
+        v.extend([p - 1, p, p + 1]);
+    }
+    v.extend([62, 66, 100, 126, 130, 254, 258, 300, 1000, 4094, 4098, 32766, 32770]);
+    v.retain(|x| *x <= max);
+    v.sort();
+    v.dedup();
+    v
+}
+
+pub fn boundary_len(max: usize) -> BoxedStrategy<usize> {
+    let pts = boundary_points(max);
+    if pts.is_empty() {
+        return (0..=max).boxed();
+    }
+    prop_oneof![3 => 0..=max.min(8), 4 => select(pts), 1 => 0..=max].boxed()
 }
